@@ -104,7 +104,7 @@ def strategy(tier):
                 tag, (ci, pj, _p, _f) = flat[i]
                 e = draw(st.sampled_from([1, 1, 2]))
                 final = {"src": [["", f"{tag}{ci}", e]], "dst": [["", f"{tag}{pj}", e]], "mag": draw(MAG),
-                         "kind": draw(st.sampled_from(["in_unit", "add", "eq", "m_add", "m_sub", "m_add"]))}
+                         "kind": draw(st.sampled_from(["in_unit", "add", "eq", "lt", "m_add", "m_sub", "m_add"]))}
                 steps.insert(draw(synth._int(i + 1, pos)), ["query", dict(final)])
         names = synth.unit_names(spec)
 
@@ -168,10 +168,14 @@ def _exec_query(sw, q):
     try:
         if kind == "in_unit":
             r = a.in_unit(B)
-        elif kind == "eq":
-            r = a == b
-        elif kind == "lt":
-            r = a < b
+        elif kind in ("eq", "lt"):
+            # compare with the quantity's own conversion where there is one, so that == is True
+            # and < is decided by a factor of two whenever the comparison works at all
+            try:
+                other = a.in_unit(B)
+            except Exception:  # noqa
+                other = b
+            r = (a == other) if kind == "eq" else (a < other * 2 if mag > 0 else other * 2 < a)
         elif kind == "add":
             r = a + b
         else:
